@@ -315,7 +315,9 @@ class C17(Prop):
     trace_module = "DHTrace"
     design_ref = "DESIGN.md section 3, C17"
     rule = ("programs of with-blocks: every program up to the bound over 2-3 tags (TLC, with an exception possible at every "
-            "point: user raise, invalid displayed value, re-entry of an active tag; guarded and unguarded blocks), and "
+            "point: user raise, invalid displayed value - propagating or caught inside the block -, re-entry of an active tag; "
+            "guarded and unguarded blocks; 24 kinds of displayed value), run with a collecting base hook or the interpreter's "
+            "own sys.__displayhook__, on tags built separately or from one TagList, and "
             "seeded random programs to depth 8 / 60 events, each run with genuine `with` statements.  Non-trivial: the "
             "program nests at least two blocks or an exception crosses a block boundary.")
     assumptions = [
